@@ -8,6 +8,7 @@ package props
 // verdicts across backends.
 
 import (
+	"regexp"
 	"bytes"
 	"context"
 	"encoding/json"
@@ -139,6 +140,15 @@ func genC10Dump(t *rapid.T) C10Case {
 	}
 	if chancePct(t, 15, "stray") {
 		ops = append(ops, C10Op{Kind: "stray", Key: BS([]string{".tmp-1234567", ".tmp-1", ".gitkeep", "..x"}[uniformN(t, 4, "strayname")])})
+	}
+	if translatable(typ) && chancePct(t, 25, "translatedsibling") {
+		// an entry with a translation, and entries whose keys continue that entry's key with
+		// an underscore (the stored name of a translation does so too): listed by that prefix
+		k := keys[uniformN(t, len(keys), "trkey")]
+		ops = append(ops, C10Op{Kind: "put", Key: BS(k), Val: "dflt"},
+			C10Op{Kind: "lang", Lang: []string{"nor", "eng", "swa"}[uniformN(t, 3, "trlang")]}, C10Op{Kind: "put", Key: BS(k), Val: "trans"}, C10Op{Kind: "lang", Lang: ""},
+			C10Op{Kind: "put", Key: BS(k + "_about"), Val: "va"}, C10Op{Kind: "put", Key: BS(k + "_terms"), Val: "vt"}, C10Op{Kind: "put", Key: BS(k + "_zz"), Val: "vz"},
+			C10Op{Kind: "dump", Key: BS(k + "_")})
 	}
 	nd := rapid.IntRange(1, 3).Draw(t, "ndumps")
 	for i := 0; i < nd; i++ {
@@ -401,6 +411,9 @@ func ctxWithLang(code string) context.Context {
 }
 
 type kv struct{ k, v string }
+
+// langLikeSuffix: a key that ends the way the stored name of a translation does
+var langLikeSuffix = regexp.MustCompile(`_[a-z]{2,3}$`)
 
 // dumpAllBetween: like dumpAll, with between() called after every entry read.
 func dumpAllBetween(ctx context.Context, d db.Db, prefix []byte, between func()) ([]kv, error) {
@@ -674,7 +687,7 @@ func checkC10(c C10Case) (o Outcome) {
 			if ref.pfx == 0 {
 				continue
 			}
-			var want []kv
+			var want, wantDefault []kv
 			hasTranslated := false
 			otherSessions := false
 			for k, v := range ref.m {
@@ -690,6 +703,21 @@ func checkC10(c C10Case) (o Outcome) {
 				}
 				if strings.HasPrefix(k.key, prefix) {
 					want = append(want, kv{k.key, string(v)})
+					if k.lang == "" {
+						wantDefault = append(wantDefault, kv{k.key, string(v)})
+					}
+				}
+			}
+			// (only where every translation of this type and session sits next to a default
+			// entry of the same key: a translation alone is listed through a failing read)
+			translationsHaveDefaults := true
+			for k := range ref.m {
+				if k.typ == ref.pfx && k.lang != "" {
+					d := k
+					d.lang = ""
+					if _, ok := ref.m[d]; !ok {
+						translationsHaveDefaults = false
+					}
 				}
 			}
 			sort.Slice(want, func(i, j int) bool { return want[i].k < want[j].k || (want[i].k == want[j].k && want[i].v < want[j].v) })
@@ -699,6 +727,30 @@ func checkC10(c C10Case) (o Outcome) {
 			for _, b := range bks {
 				if b.name != "fs" && b.name != "fsbin" {
 					continue // listing is implemented on the filesystem backend
+				}
+				if hasTranslated && ref.effLang() == "" && translationsHaveDefaults {
+					// translated entries exist, the handle reads the default language: what a
+					// translation is listed as is not specified, but every default-language entry
+					// with the prefix is a stored key with that prefix and has to be there
+					got, err := dumpAll(ctx, b.d, []byte(prefix))
+					o.class("dump-with-translations:defaults-required")
+					if err == nil {
+						for _, w := range wantDefault {
+							if langLikeSuffix.MatchString(w.k) {
+								continue
+							}
+							found := false
+							for _, g := range got {
+								if g.k == w.k && g.v == w.v {
+									found = true
+								}
+							}
+							if !found {
+								return at(b, "dump-misses-default-entry", "Dump(%q) listed %q, which lacks the stored default-language entry %q=%q", prefix, got, w.k, w.v)
+							}
+						}
+					}
+					continue
 				}
 				if hasTranslated || ref.effLang() != "" {
 					// what "the stored keys" are for translated entries is not specified: the
